@@ -226,6 +226,24 @@ inline void run_kernel(const char* kernel, MA&& mka, MB&& mkb, F&& angle_ab, G&&
           }
         }
   }
+  // (v) vectors whose length is next to one, 1 +- 2^-j for every third j up to the mantissa width (where "already a unit vector"
+  // shortcuts would sit), against a vector a few milliradians away and against a generic one
+  for (auto& vb : G1)
+    for (int j = 2; j <= p + 1; j += (th ? 1 : 3))
+      for (int sg : {1, -1}) {
+        long double n2 = 0;
+        for (int i = 0; i < D; i++) n2 += (long double)vb[i] * vb[i];
+        const long double inv = 1.0L / std::sqrt(n2), f = 1.0L + sg * std::ldexp(1.0L, -j);
+        T ca[3] = {0, 0, 0}, cb[3] = {0, 0, 0}, cg[3] = {(T)0.7L, (T)-1.3L, D == 3 ? (T)0.4L : (T)0};
+        for (int i = 0; i < D; i++) {
+          ca[i] = (T)(vb[i] * inv * f);
+          cb[i] = (T)(vb[i] * inv + 0.003L * ((i + 1) % D == 0 ? 1.0L : -0.5L));
+        }
+        both(ca, cb, 3);
+        both(cb, ca, 3);
+        both(ca, cg, 0);
+        both(cg, ca, 0);
+      }
   vf::stat("nontrivial_angles", nontrivial);
   vf::stat("kernel_instances");
 }
